@@ -204,6 +204,7 @@ def step (st : St) (ws0 : List String) : St × String :=
       ({ st with t := r.t }, s!"res={resStr r.res} {snap} {allocStr ta (r.alloc + r.store)} tag={r.tag}")
     | _, _, _ => (st, "bad-op")
   | ["sched", _] => (st, "ok")
+  | ["e2e", _] => (st, "ok")
   | ["tick", rs] =>
     match (if rs == "-" then some [] else (rs.splitOn ".").mapM String.toNat?) with
     | some l => ({ st with t := reserve st.t l }, "res=ok")
